@@ -15,6 +15,8 @@ package c16
 // establishment prefixes: fresh (nothing), offered (DISCOVER/OFFER), acked (+REQUEST/ACK),
 // renewed (+ a renewal at T1), initreboot (REQUEST without DISCOVER: the server claims the address)
 // termination paths: release, decline, expiry (virtual time passes the lease, cleanup tick runs),
+// expiry-rediscover (the lease runs out and the client starts over before the tick: DISCOVER retires the
+// stale lease; the new session is then RELEASEd and the census taken),
 // auth-fail (RADIUS rejects the REQUEST), shutdown (the sequence main.go runs after ctx.Done()).
 
 import (
@@ -43,14 +45,15 @@ func (c *capConn) SetDeadline(time.Time) error            { return nil }
 func (c *capConn) SetReadDeadline(time.Time) error        { return nil }
 func (c *capConn) SetWriteDeadline(time.Time) error       { return nil }
 
-var dhcpPaths = []string{"release", "decline", "expiry", "auth-fail", "shutdown"}
+var dhcpPaths = []string{"release", "decline", "expiry", "expiry-rediscover", "auth-fail", "shutdown"}
 
 var dhcpPrefixes = map[string][]string{
-	"release":   {"acked", "renewed", "initreboot"},
-	"decline":   {"offered", "acked", "renewed", "initreboot"},
-	"expiry":    {"offered", "acked", "renewed", "initreboot"},
-	"auth-fail": {"fresh", "offered"},
-	"shutdown":  {"acked", "renewed"},
+	"release":           {"acked", "renewed", "initreboot"},
+	"decline":           {"offered", "acked", "renewed", "initreboot"},
+	"expiry":            {"offered", "acked", "renewed", "initreboot"},
+	"expiry-rediscover": {"acked", "renewed", "initreboot"},
+	"auth-fail":         {"fresh", "offered"},
+	"shutdown":          {"acked", "renewed"},
 }
 
 func dhcpCells(kind string) []cellSpec {
@@ -245,6 +248,7 @@ func (x *dhcpRun) renewBackground() {
 // current instant) while the background clients renew at T1, then runs one cleanup tick.
 func (x *dhcpRun) passLease() {
 	lease := time.Duration(x.tc.P.LeaseS) * time.Second
+	x.renewBackground()
 	time.Sleep(lease / 2)
 	synctest.Wait()
 	x.renewBackground()
@@ -274,6 +278,29 @@ func (x *dhcpRun) terminate(path string) {
 	case "expiry":
 		x.res.logf("  lease time passes (%ds), cleanup tick", p.LeaseS)
 		x.passLease()
+	case "expiry-rediscover":
+		// the lease runs out, and before the cleanup tick comes round the client starts over: DISCOVER (the server
+		// retires the stale lease), REQUEST (a new session), and finally a clean RELEASE of that new session
+		lease := time.Duration(p.LeaseS) * time.Second
+		x.renewBackground()
+		time.Sleep(lease / 2)
+		synctest.Wait()
+		x.renewBackground()
+		time.Sleep(lease/2 + 2*time.Second)
+		synctest.Wait()
+		ip := x.discover(x.mac(), p.Cid, p.RemoteID)
+		if ip == nil {
+			x.res.harness = "DISCOVER after expiry got no OFFER"
+			return
+		}
+		x.res.logf("  lease ran out (%ds, no cleanup tick yet); DISCOVER -> OFFER %s", p.LeaseS, ip)
+		if ok, _ := x.request(x.mac(), p.Cid, p.RemoteID, "selecting", ip); !ok {
+			x.res.harness = "REQUEST after expiry got no ACK"
+			return
+		}
+		x.ip = ip
+		x.res.logf("  REQUEST -> ACK %s (new session); RELEASE", ip)
+		x.release(x.mac(), p.Cid, p.RemoteID, x.ip)
 	case "shutdown":
 		x.res.logf("  shutdown sequence of main.go: qosMgr.Stop(), natMgr.Stop(), loader.Close()")
 		if x.w.qos != nil {
@@ -471,7 +498,11 @@ func runDHCPInBubble(tc *tcase, rs *radServer, res *result) {
 		return
 	}
 	_ = acked
-	x.oracle(tc.Path, pre, prePool)
+	firstSig := tc.Path
+	if tc.Prefix == "offered" && tc.Path != "auth-fail" {
+		firstSig = tc.Path + "@offered" // nothing but the pool allocation is held: a different code path decides its fate
+	}
+	x.oracle(firstSig, pre, prePool)
 	if len(res.viol) > 0 || res.harness != "" || tc.Path == "shutdown" {
 		return
 	}
@@ -479,7 +510,7 @@ func runDHCPInBubble(tc *tcase, rs *radServer, res *result) {
 	// ---- second termination
 	if tc.Second != "none" {
 		sp := secondPath(tc.Second)
-		sigPath := tc.Path + "+" + sp
+		sigPath := firstSig + "+" + sp
 		c1, err := w.census()
 		if err != nil {
 			res.harness = err.Error()
@@ -501,14 +532,14 @@ func runDHCPInBubble(tc *tcase, rs *radServer, res *result) {
 		pool2 := pool.VerifState()
 		if len(pool2.Allocated) != len(pool1.Allocated) || len(pool2.Available) != len(pool1.Available) || len(pool2.Unavailable) != len(pool1.Unavailable) {
 			// a DECLINE after the end may not take the (now free) address out of service either: the session no longer holds it
-			res.fail("C16/"+tc.Kind+"/"+sigPath+"/second-changes-pool", "the second termination changed the pool: allocated %d->%d available %d->%d unavailable %d->%d",
+			res.fail("C16/"+tc.sigKind()+"/"+sigPath+"/second-changes-pool", "the second termination changed the pool: allocated %d->%d available %d->%d unavailable %d->%d",
 				len(pool1.Allocated), len(pool2.Allocated), len(pool1.Available), len(pool2.Available), len(pool1.Unavailable), len(pool2.Unavailable))
 		}
 		if n := len(srv.VerifLeases()); n != leases1 {
-			res.fail("C16/"+tc.Kind+"/"+sigPath+"/second-changes-lease", "the second termination changed the lease table: %d -> %d leases", leases1, n)
+			res.fail("C16/"+tc.sigKind()+"/"+sigPath+"/second-changes-lease", "the second termination changed the lease table: %d -> %d leases", leases1, n)
 		}
 		if recs := rs.records(); len(recs) != recs1 {
-			res.fail("C16/"+tc.Kind+"/"+sigPath+"/second-sends-acct", "the second termination sent accounting records: %v", recs[recs1:])
+			res.fail("C16/"+tc.sigKind()+"/"+sigPath+"/second-sends-acct", "the second termination sent accounting records: %v", recs[recs1:])
 		}
 		if len(res.viol) > 0 {
 			return
@@ -530,14 +561,14 @@ func runDHCPInBubble(tc *tcase, rs *radServer, res *result) {
 		got++
 	}
 	if got != want {
-		res.fail("C16/"+tc.Kind+"/"+tc.Path+"/pool-drain", "drain probe: the pool handed out %d addresses, %d were free before the session was established (quarantined by DECLINE: %d)", got, want, x.quarantined)
+		res.fail("C16/"+tc.sigKind()+"/"+tc.Path+"/pool-drain", "drain probe: the pool handed out %d addresses, %d were free before the session was established (quarantined by DECLINE: %d)", got, want, x.quarantined)
 	}
 }
 
 // oracle: the clauses of the statement for the session under test after a termination.
 func (x *dhcpRun) oracle(sigPath string, pre *census, prePool dhcp.VerifPoolState) {
 	tc, res := x.tc, x.res
-	sig := func(r string) string { return "C16/" + tc.Kind + "/" + sigPath + "/" + r }
+	sig := func(r string) string { return "C16/" + tc.sigKind() + "/" + sigPath + "/" + r }
 	// (4) accounting: only what outlives the process is demanded of a shutdown
 	recs := x.rs.records()
 	me := normMAC(x.mac().String())
@@ -545,7 +576,7 @@ func (x *dhcpRun) oracle(sigPath string, pre *census, prePool dhcp.VerifPoolStat
 	for _, b := range x.rs.problems() {
 		res.harness = "scripted RADIUS server: " + b
 	}
-	if sigPath == "shutdown" {
+	if firstPath(sigPath) == "shutdown" {
 		return
 	}
 	// the server's own tables
